@@ -116,7 +116,11 @@ static void run_legacy(const vh::Json& segs, uint32_t isn, bool server_dir, vh::
         fol.follow_streams(v.begin(), v.end(), data_fun, end_fun);
         if (own) { view(ow, "after", &pdu); ow.kv("links_ok", links_ok(&pdu)).E(); out.event(ow); } };
     // handshake: the direction under test starts its data at `isn`
-    { TCP t(80, 4000); t.flags(TCP::SYN); t.seq(server_dir ? other - 1 : isn - 1); EthernetII p = EthernetII() / IP(S, C) / t; feed(p); followed = true; }
+    { TCP t(80, 4000); t.flags(TCP::SYN); t.seq(server_dir ? other - 1 : isn - 1); EthernetII p = EthernetII() / IP(S, C) / t; feed(p); followed = true;
+      // the SYN may be retransmitted, and a stray ACK may arrive, before the SYN|ACK is seen
+      int pre = (int)rng.below(3);
+      if (pre == 1) { EthernetII p2 = EthernetII() / IP(S, C) / t; feed(p2); }
+      if (pre == 2) { TCP a(80, 4000); a.flags(TCP::ACK); a.seq(server_dir ? other : isn); a.ack_seq(0x01020304); EthernetII p2 = EthernetII() / IP(S, C) / a; feed(p2); } }
     { TCP t(4000, 80); t.flags(TCP::SYN | TCP::ACK); t.seq(server_dir ? isn - 1 : other - 1); t.ack_seq(server_dir ? other : isn); EthernetII p = EthernetII() / IP(C, S) / t; feed(p); }
     const int oorder[3] = {1, 0, 2}; int onext = 0;
     auto feed_other = [&]() { if (!both_dirs || onext >= 3) return; int c = oorder[onext++]; std::vector<uint8_t> ob(4, (uint8_t)(0xd0 + c));
